@@ -16,6 +16,7 @@ import (
 	"syscall"
 	"time"
 
+	"verifharness/container"
 	"verifharness/core"
 	"verifharness/gen"
 	"verifharness/kz"
@@ -363,6 +364,57 @@ func runCliCase(c *cliCase) (vs []cliViolation, nontrivial bool) {
 		}
 		checkInputsUntouched("no-overwrite runs")
 		nontrivial = true
+	case "force-overwrite":
+		// -f onto an existing, LONGER output: the result must be exactly the new content (no stale tail)
+		f := c.Files[0]
+		in := filepath.Join("t", f.Rel)
+		junk := bytes.Repeat([]byte("stale bytes of the previous output file. "), (2*len(content[f.Rel])+200000)/40)
+		for _, viaStdin := range []bool{false, true} {
+			os.WriteFile(filepath.Join(work, "o.knz"), junk, 0o644)
+			var r1 toolRun
+			if viaStdin {
+				r1, _ = runTool(work, content[f.Rel], wall, nil, append(copts, "-i", "stdin", "-o", "o.knz", "-f")...)
+			} else {
+				r1, _ = runTool(work, nil, wall, nil, append(copts, "-i", in, "-o", "o.knz", "-f")...)
+			}
+			if r1.exit != 0 {
+				bad("compress-exit", "forced overwrite (stdin=%v) exits %d: %s", viaStdin, r1.exit, r1.out)
+				continue
+			}
+			s, _ := os.ReadFile(filepath.Join(work, "o.knz"))
+			ps, perr := container.Parse(s)
+			if perr != nil || (ps.EndBits+7)/8 != len(s) {
+				bad("forced-overwrite-leaves-stale-bytes", "compress -f (stdin=%v) onto a longer file: the archive has %d bytes but its block chain ends at byte %d (%v)", viaStdin, len(s), func() int {
+					if ps != nil {
+						return (ps.EndBits + 7) / 8
+					}
+					return -1
+				}(), perr)
+			}
+			if rr := kz.Decompress(s, 1, nil); rr.Err != nil || !bytes.Equal(rr.Out, content[f.Rel]) {
+				bad("forced-overwrite-corrupt", "compress -f (stdin=%v) onto a longer file does not decode (%v)", viaStdin, rr.Err)
+			}
+			// and the decompressor: restore onto an existing longer file
+			good, _, _ := kz.Compress(content[f.Rel], kz.Cfg{Transform: "LZ", Entropy: "HUFFMAN", BlockSize: 65536, Jobs: 1, Checksum: 32, Hint: int64(len(content[f.Rel]))}, nil)
+			os.WriteFile(filepath.Join(work, "g.knz"), good, 0o644)
+			os.WriteFile(filepath.Join(work, "restored.out"), junk, 0o644)
+			var r2 toolRun
+			if viaStdin {
+				r2, _ = runTool(work, good, wall, nil, append(dopts, "-i", "stdin", "-o", "restored.out", "-f")...)
+			} else {
+				r2, _ = runTool(work, nil, wall, nil, append(dopts, "-i", "g.knz", "-o", "restored.out", "-f")...)
+			}
+			if r2.exit != 0 {
+				bad("decompress-exit", "forced overwrite (stdin=%v) exits %d: %s", viaStdin, r2.exit, r2.out)
+				continue
+			}
+			got, _ := os.ReadFile(filepath.Join(work, "restored.out"))
+			if !bytes.Equal(got, content[f.Rel]) {
+				bad("forced-overwrite-leaves-stale-bytes", "decompress -f (stdin=%v) onto a longer file: %d bytes on disk, %d expected", viaStdin, len(got), len(content[f.Rel]))
+			}
+		}
+		checkInputsUntouched("forced overwrite runs")
+		nontrivial = true
 	case "same-file":
 		f := c.Files[0]
 		in := filepath.Join("t", f.Rel)
@@ -526,7 +578,7 @@ func compareTreeNames(want map[string][]byte, root, suffix string) string {
 
 func c19(run *core.Run, replay string) {
 	run.SetRule("the v2/app binary is built from the working tree and run in fresh scratch trees: (a) random trees (empty files, sub-directories, names with spaces) x levels 0-9 and explicit -t/-e/-b/-j/-x options round-tripped in place with --rm, " +
-		"dir -> dir with -f, file -> file, stdin -> stdout, both exit codes 0 and restored bytes identical; (b) existing outputs are never replaced without -f (content, inode and mtime compared), output aliasing the input is refused even with -f; " +
+		"dir -> dir with -f, file -> file, stdin -> stdout, both exit codes 0 and restored bytes identical; (b) existing outputs are never replaced without -f (content, inode and mtime compared), output aliasing the input is refused even with -f, a forced overwrite of a longer file (file and stdin inputs) leaves exactly the new content; " +
 		"(c) inputs keep content, inode and mtime without --rm; (d) kill safety of --rm runs (compress and decompress): SIGKILL injected with strace at the ENTRY of the N-th write/close/unlinkat/openat per thread, " +
 		"and right AFTER the N-th unlinkat/write/close returned (delay_exit then kill) - afterwards every source must still exist intact or its output must be complete (archives decoded with the library); " +
 		"(e) in the syscall trace of fault-free --rm runs every unlink of a source follows the last write to its output. non-trivial = the scenario ran the tool on a non-empty tree; distinct = (kind, tree, options, syscall, N)")
@@ -589,6 +641,7 @@ func c19(run *core.Run, replay string) {
 		r := core.Derive(S, "c19ow", i)
 		cases = append(cases, &cliCase{Kind: "no-overwrite", Files: randomTree(r, 1, 20000), Opts: optSets[(i*3)%len(optSets)], Seed: S + int64(i)})
 		cases = append(cases, &cliCase{Kind: "same-file", Files: randomTree(r, 1, 20000), Opts: optSets[(i*5)%len(optSets)], Seed: S + int64(i)})
+		cases = append(cases, &cliCase{Kind: "force-overwrite", Files: randomTree(r, 1, 70000), Opts: optSets[(i*7)%len(optSets)], DOpts: []string{"-j", "2"}, Seed: S + int64(i)})
 	}
 	// kill points on --rm runs
 	killTree := []cliTreeFile{{"a.txt", "text", 200000}, {"sub/b.bin", "random", 70000}, {"sub/empty", "text", 0}, {"c.dat", "html", 400000}}
